@@ -531,8 +531,10 @@ class JokerSamples:
                 )
                 t.meta["t_ref"] = t.meta["t0"]
 
-            if t.meta.get("t_ref", None) is not None:
-                t.meta["__t_ref_bmjd"] = t.meta.pop("t_ref").tcb.mjd
+            # a FITS header cannot hold a Time, nor a None
+            t_ref = t.meta.pop("t_ref", None)
+            if t_ref is not None:
+                t.meta["__t_ref_bmjd"] = t_ref.tcb.mjd
 
             with warnings.catch_warnings():
                 warnings.simplefilter("ignore", category=fits.verify.VerifyWarning)
@@ -602,7 +604,7 @@ class JokerSamples:
 
                 if "__t_ref_bmjd" in tbl.meta.keys():
                     tbl.meta["t_ref"] = Time(
-                        tbl.meta["__t_ref_bmjd"], format="mjd", scale="tcb"
+                        tbl.meta.pop("__t_ref_bmjd"), format="mjd", scale="tcb"
                     )
 
         else:
